@@ -111,7 +111,55 @@ def run(ck, ctx):
                     name = fnode.attr.name if fnode.op in ("Func", "Closure") else (
                         fnode.attr if fnode.op == "Ext" else g.show(fnode, 1))
                     reg.setdefault(pos_[0].attr, {})[n.args[0].attr.split("_")[-1]] = name
+                    if n.args[0].attr.endswith("register_identifier"):
+                        ident_nodes[pos_[0].attr] = (fnode, n)
         return reg
+
+    ident_nodes = {}
+    LIB_IDENT = {"hdf5": "astropy.io.misc.hdf5.is_hdf5", "fits": "astropy.io.fits.connect.is_fits"}
+
+    def r187():
+        """the identifier decides which reader an un-annotated read gets: the library's identifiers look at the
+        file's signature when the open file is handed over, so a grid is found again under any file name.  A
+        repository identifier must keep that: every answer is 'yes', or consults the open file"""
+        if not ident_nodes:
+            registered()
+        ck.floor("R18.7", len(ident_nodes), 2, "registered identifiers")
+
+        def arms(v, guards=()):
+            if v.op == "Phi":
+                return arms(v.args[1], guards + (v.args[0],)) + arms(v.args[2], guards + (v.args[0],))
+            return [(guards, v)]
+
+        for fmt in sorted(ident_nodes):
+            fnode, site = ident_nodes[fmt]
+            if fnode.op == "Ext":
+                want = LIB_IDENT.get(fmt)
+                ck.ob("R18.7", f"format '{fmt}' is identified by the library's content-based identifier",
+                      want is None or fnode.attr == want, site, "grid.py", f"{fnode.attr}")
+                continue
+            if fnode.op not in ("Func", "Closure"):
+                ck.ob("R18.7", f"format '{fmt}' is identified by a readable function", False, site, "grid.py",
+                      g.show(fnode, 2))
+                continue
+            origin, fpath, fobj = I.input("origin"), I.input("filepath"), I.input("fileobj")
+            extra = I.input("args")
+            r = I.run(fnode, [origin, fpath, fobj, extra], {})
+            if r.value is None:
+                ck.ob("R18.7", f"identifier of '{fmt}' returns an answer", False, site, fnode.attr.qualname, "no return")
+                continue
+            bad = []
+            for guards, leaf in arms(r.value):
+                if leaf.op == "Const" and leaf.attr is True:
+                    continue
+                seen = {id(x) for x in walk([leaf] + list(guards))}
+                if id(fobj) in seen:
+                    continue
+                bad.append(g.show(leaf, 3))
+            ck.ob("R18.7", f"every answer of the '{fmt}' identifier is 'yes' or consults the open file "
+                           "(a grid is recognised under any file name)", not bad, site, fnode.attr.qualname,
+                  "; ".join(bad[:3]) if bad else "all answers consult fileobj")
+    ck.guard(r187, "R18.7")
 
     def r181():
         I.watch_calls.add("NssGrid.__init__")
